@@ -33,7 +33,26 @@ def gen_cases(ctx, n):
             f["mm"] = ctx.rng.uniform(1, 17)
             f["inc"] = ctx.rng.uniform(55, 125)
         l1, l2 = tlegen.make(**f)
-        out.append((l1, l2, ctx.rng.choice([0.0, ctx.rng.uniform(-1440, 1440), ctx.rng.uniform(-86400, 86400)])))
+        ts = ctx.rng.choice([0.0, ctx.rng.uniform(-1440, 1440), ctx.rng.uniform(-86400, 86400)])
+        out.append((l1, l2, ts))
+        if i % 4 == 3:
+            # a sibling element set: the same satellite, epoch and every field but ONE (a corrected / re-issued set), handled
+            # next in the same process - the outcome class must follow the field that changed
+            g = dict(f)
+            which = ctx.rng.choice(["ecc", "ecc", "ecc", "mm", "inc", "bstar"])
+            if which == "ecc":
+                g["ecc"] = ctx.rng.choice([ctx.rng.randint(1, 20000), ctx.rng.randint(300000, 900000), min(9999989, int(f["ecc"]) + 600000)])
+            elif which == "mm":
+                g["mm"] = max(0.1, float(f["mm"]) + ctx.rng.choice([-3.0, 1.0, 2.5]))
+            elif which == "inc":
+                g["inc"] = (float(f["inc"]) + ctx.rng.uniform(10, 80)) % 180.0
+            else:
+                g["bstar"] = (ctx.rng.randint(10000, 99999), ctx.rng.choice([-2, -3, -4]), ctx.rng.choice(" -"))
+            try:
+                m1, m2 = tlegen.make(**g)
+                out.append((m1, m2, ts))
+            except Exception:
+                pass
     return out
 
 
